@@ -157,7 +157,7 @@ def build():
     U.raw(C.TRAIT_FULL + TRAIT, 'CelValueDyn trait restated')
     U.raw(C.VALUE_SPECS + C.TRUTHY_SPEC + SPECS, 'spec functions')
     U.raw(TRAMP, 'assumed comparison specs')
-    U.raw(C.STD_SPECS, 'assumed std specs')
+    U.raw(C.STD_SPECS + C.STD_INT_SPECS, 'assumed std specs')
     U.raw(C.AXIOMS, 'axioms')
     U.extract(C.CE, 'impl CelError', fns={
         'invalid_op': A(ret='r', ensures=[('kind', 'r is InvalidOp')], props=('C01',)),
